@@ -69,6 +69,24 @@ def run(chk):
     env = {"TMPDIR": "/dev/shm"} if os.path.isdir("/dev/shm") else None
     recs, _ = vf.run_driver(binary, ["run", path], env=env, timeout=3000)
     chk.absorb(recs, "CheckTransactionSanity + CheckTransactionContext on real Schnorr withdrawals")
+    # the other half of "withdrawn on the active chain can never be withdrawn again": the Tx3 index the checker
+    # consults holds exactly the hashes of the withdrawals on the active chain (Index.tla, shared with C13),
+    # for every payload version and output layout, across connect / disconnect / reconnect
+    import importlib.util
+    _sp = importlib.util.spec_from_file_location("prop_C13", os.path.join(os.path.dirname(__file__), "C13.py"))
+    c13 = importlib.util.module_from_spec(_sp)
+    _sp.loader.exec_module(c13)
+    ibin = vf.go_build("index")
+    tpl = ["P1", "W0", "W1", "W2", "W3", "W4"]
+    ri = vf.tlc("Chain", "Index", "w.cfg", cfg_text=c13.cfg(tpl, 4 if thorough else 3, 2 if thorough else 1, c13.asis(), "ACTION_CONSTRAINT Emit"),
+                workers=1, timeout=1700)
+    vf.tlc_ok(ri, "Index extraction (withdrawals)")
+    chk.add_tlc(ri, "Index.tla edges over the withdrawal templates (payload v0/v1/v2, change-first layouts)")
+    ib, ist = vf.behaviours(ri, limit=4000 if thorough else 250, rng=rng, per_class=200 if thorough else 12, strat_key=c13.cls)
+    ipath = os.path.join(vf.scratch(), "wd-idx.jsonl")
+    vf.write_json_lines(ipath, ib)
+    chk.absorb(vf.run_sharded(ibin, lambda i, n: ["replay", ipath, str(i), str(n)], env={"VERIF_INDEX_FOR": "C33"}),
+               "recorded withdrawal hashes follow the active chain (real ChainStore)")
     bad = dict(next(c for c in cases if c["authorised"] and not c["panics"])); bad["authorised"] = False
     p = os.path.join(vf.scratch(), "wd-bad.jsonl")
     vf.write_json_lines(p, [bad])
